@@ -231,6 +231,38 @@ func runC02(c *fw.Ctx) {
 			return
 		}
 	}
+	// independent tries built at the same time in several goroutines (nothing shared between them but the package):
+	// every one must still arrive at the canonical root
+	if c.Idx%8 == 3 {
+		roots := make([][]byte, len(hists))
+		var wg sync.WaitGroup
+		for hi := range hists {
+			wg.Add(1)
+			go func(hi int) {
+				defer wg.Done()
+				defer func() { _ = recover() }()
+				m := lab.NewMPT(util.NewMemoryNodeDB(), version, nil)
+				for rep := 0; rep < 3; rep++ {
+					for _, op := range hists[hi].ops {
+						if op.del {
+							_, _ = m.Delete(util.Path(op.path))
+						} else if _, err := m.Insert(util.Path(op.path), &lab.Val{B: op.val}); err != nil {
+							return
+						}
+					}
+				}
+				roots[hi] = append([]byte{}, m.GetRoot()...)
+			}(hi)
+		}
+		wg.Wait()
+		for hi, rt := range roots {
+			if rt == nil || !bytes.Equal(rt, want) {
+				c.Violate("", "history %s replayed three times on a private trie while %d other goroutines build their own tries: root %x, the canonical root of the content is %x", hists[hi].name, len(hists)-1, rt, want)
+				break
+			}
+		}
+		c.Count("concurrent_private_trie_groups", 1)
+	}
 	// injectivity over the contents this worker has seen (same version is part of the key)
 	rk := fmt.Sprintf("%d/%x", version, want)
 	cd := contentDigest(target)
@@ -260,7 +292,7 @@ func init() {
 		Level: "exploration",
 		Rule: "each case draws a version and a content S (by a random insert/delete history over structure-seeking paths) and then replays five more histories that end in S at that version: shuffled inserts; inserts mixed with related extra paths that are deleted afterwards; " +
 			"overwrite chains with delete-then-reinsert; interior paths late; interior paths early. After every operation of every history the root must equal an independent canonical-trie hasher applied to the model content; all final roots must be identical; " +
-			"the stored encodings reachable from the root are parsed by the harness' own decoder and must reproduce S (raw bytes from the persistent store for a third of the histories); a per-worker root->content table checks injectivity; every 8th case runs with the package's debug switch (DebugMPTNode) on. " +
+			"the stored encodings reachable from the root are parsed by the harness' own decoder and must reproduce S (raw bytes from the persistent store for a third of the histories); a per-worker root->content table checks injectivity; every 8th case runs with the package's debug switch (DebugMPTNode) on; every 8th case also replays its six histories (three times each) in six concurrent goroutines on private tries and requires the canonical root from each. " +
 			"non-trivial = content with >=2 entries whose canonical trie has at least one branch; distinct by (version, content)",
 		Cases: func(tier string) int {
 			if tier == "thorough" {
@@ -270,7 +302,7 @@ func init() {
 		},
 		Run: runC02,
 		Floors: map[string]int64{"histories": 30000, "root_comparisons": 300000, "canon_extensions": 1000, "canon_branch_values": 1000, "nodes_read_back": 100000,
-			"history:extras-then-deleted": 1000, "history:overwrite-and-reinsert": 1000, "distinct:contents": 3000, "cases_with_debug_switch_on": 1000},
+			"history:extras-then-deleted": 1000, "history:overwrite-and-reinsert": 1000, "distinct:contents": 3000, "cases_with_debug_switch_on": 1000, "concurrent_private_trie_groups": 1000},
 		Assumptions: []string{
 			"published format as read from the code at the pinned commit: sha3-256(LE64(origin) ‖ body) with ':'-separated bodies; the reference hasher shares no code with /repo",
 			"fixed version per case: every node's origin equals the trie version",
